@@ -122,6 +122,48 @@ func c17Sites(r *wk.Rand, s *gen.Shape, raw any, env *gen.Env, path, chain []str
 			k := k
 			out = append(out, c17Sites(r, s.Vals, m[k], env, cp(path, fmt.Sprint(k)), cp(chain, "map"), func(nv any) { m[k] = nv }, depth+1)...)
 		}
+		// keys as the input writes them: an integer key given as a zero-padded decimal string is still that
+		// entry's key, and a corrupted value below it is found under the key as written
+		if ks, kenv := s.Keys, env; ks != nil && ks.Kind == gen.KInt && ks.Units == "" {
+			_ = kenv
+			for _, k := range keys {
+				k := k
+				ki, isInt := k.(int64)
+				if !isInt || ki < 0 || ki > 99 {
+					continue
+				}
+				alt := fmt.Sprintf("%03d", ki)
+				rekey := func() {
+					v := m[k]
+					delete(m, k)
+					m[alt] = v
+				}
+				for _, st := range c17Sites(r, s.Vals, m[k], env, cp(path, alt), cp(chain, "map"), func(nv any) { m[alt] = nv }, depth+1) {
+					st := st
+					inner := st.apply
+					st.apply = func() { rekey(); inner() }
+					st.native = false
+					st.kind += "(key written 007-style)"
+					out = append(out, st)
+				}
+				break
+			}
+			// a key that is no integer at all
+			if s.Max == nil || int64(len(m)) < *s.Max {
+				var val any
+				have := false
+				for _, k := range keys {
+					val, have = gen.CopyRaw(m[k]), true
+					break
+				}
+				if !have {
+					val, have = gen.ValidRaw(r, s.Vals, env, 0)
+				}
+				if have {
+					out = append(out, c17Site{path: cp(path, "abc"), chain: cp(chain, "map"), kind: "bad-key", apply: func() { m["abc"] = val }, native: false})
+				}
+			}
+		}
 	case gen.KObject:
 		m, ok := raw.(map[string]any)
 		if !ok || s.Struct != "" {
@@ -269,14 +311,18 @@ func normPath(p []string) []string {
 }
 
 func runC17(c *wk.Ctx) {
-	c.Meta("rule", "generated nested schemas (map-based objects, lists, maps with string/int keys, one-of, references and scopes, scalars with bounds, patterns, enums) with a valid input; every leaf / list / map / object / required property on the way is corrupted ONE AT A TIME with each applicable corruption (wrong type, below min, above max, pattern miss, not in enum, undeclared key, missing required property, violated required_if / required_if_not / conflicts rule) - the injector knows the path by construction. The corrupted input must be must-reject for the reference interpreter (else the case is skipped). Oracle: errors.As(err, *ConstraintError) and its Path, with one-of marker segments removed and [..]/{..} decoration stripped, equals the injector's path; for an undeclared key the path of the containing object and the key named in the message. Both Unserialize (raw) and Validate (native-form trees). distinct = hash(schema, path, corruption); non-trivial = path length >= 1")
-	c.Meta("assumptions", []string{"struct-mapped objects are left out of the injector (paths through them are exercised by C01/C03 errors only)",
+	c.Meta("rule", "generated nested schemas (map-based objects, lists, maps with string/int keys, one-of, references and scopes, scalars with bounds, patterns, enums) with a valid input; every leaf / list / map / object / required property on the way is corrupted ONE AT A TIME with each applicable corruption (wrong type, below min, above max, pattern miss, not in enum, undeclared key, missing required property, violated required_if / required_if_not / conflicts rule) - the injector knows the path by construction. The corrupted input must be must-reject for the reference interpreter (else the case is skipped). Oracle: errors.As(err, *ConstraintError) and its Path, with one-of marker segments removed and [..]/{..} decoration stripped, equals the injector's path; for an undeclared key the path of the containing object and the key named in the message. Both Unserialize (raw) and Validate (native-form trees). Map entries are also addressed by a key written differently from its canonical form (007 for 7) and a key of the wrong type is injected: the path names the key as the input writes it. Struct-mapped values: see assumptions. distinct = hash(schema, path, corruption); non-trivial = path length >= 1")
+	c.Meta("assumptions", []string{"struct-mapped objects: one case in five unserializes a valid input of a struct-mapped schema, breaks one scalar leaf of the Go value (through structs, pointers, slices, maps, interfaces) and demands that Validate names it by property IDs; Unserialize-side injection stays on map-based schemas",
 		"a presence-rule violation is injected only where exactly one property's rule is violated afterwards (otherwise the reported property is not unique)"})
 	c.Floor("injections", 3000)
 	c.Floor("op:Unserialize", 1000)
 	c.Floor("op:Validate", 1000)
 	n := c.N(12000, 300000)
 	c.Cases(n, func(idx int64, r *wk.Rand) {
+		if idx%5 == 4 {
+			c17StructCase(c, r, idx)
+			return
+		}
 		cfg := gen.Full()
 		cfg.Structs, cfg.TypedEnum, cfg.Disabled, cfg.WeirdBounds, cfg.EmptyDef = false, false, false, false, false
 		cfg.NoPatternProps, cfg.GoodDefaults = true, true
